@@ -386,7 +386,7 @@ def injection_texts(quick):
 HEAD = "HTTP/1.1 200 OK"
 DATA = {"w0": b"", "w1": b"a", "w3": b"bcd", "w2048": b"e" * 2048, "w65537": bytes(range(256)) * 256 + b"z"}
 OPS = ["w0", "w1", "w3", "w2048", "w65537", "send_headers", "set_eof", "eof0", "eof2"]
-MODES = ["identity", "chunked", "deflate", "gzip", "chunked+deflate", "chunked+gzip"]
+MODES = ["identity", "chunked", "deflate", "gzip", "chunked+deflate", "chunked+gzip", "length4", "length2050", "length65540"]
 
 
 class WSim:
@@ -404,6 +404,10 @@ class WSim:
             self.w.enable_compression("deflate")
         if "gzip" in self.mode:
             self.w.enable_compression("gzip")
+        self.declared = None
+        if self.mode.startswith("length"):
+            # a declared Content-Length: the writer lets through at most that many body bytes
+            self.declared = self.w.length = int(self.mode[6:])
         self.written = bytearray()
         self.problems = []
         self.done = False
@@ -496,6 +500,10 @@ class WSim:
                     self.P("body-differs", "inflated prefix is not a prefix of the written data")
             except zlib.error as e:
                 self.P("compressed-stream-corrupt", str(e))
+        elif self.declared is not None:
+            if payload != bytes(self.written)[:self.declared]:
+                self.P("declared-length-overrun" if len(payload) > self.declared else "body-differs",
+                       f"declared length {self.declared}, written {len(self.written)} bytes, {len(payload)} body bytes on the wire")
         else:
             if payload != bytes(self.written):
                 self.P("body-differs", f"body on the wire has {len(payload)} bytes ({payload[:20]!r}...), written {len(self.written)} bytes")
@@ -505,7 +513,7 @@ class WSim:
         w = self.w
         import hashlib
         return (self.mode, hashlib.sha1(bytes(self.written)).hexdigest(), w._headers_written, w._headers_buf is not None, w._eof, self.done,
-                hashlib.sha1(b"".join(self.tr.out)).hexdigest(), w.buffer_size > 0x10000)
+                hashlib.sha1(b"".join(self.tr.out)).hexdigest(), w.buffer_size > 0x10000, w.length)
 
     def close(self):
         self.loop.finish()
